@@ -508,7 +508,17 @@ def run_share_polyline(desc, ctx):
     if len(E) >= 2:
         ctx.nontrivial(_key(desc))
     ctx.cls("share:size_ratio_%s" % ("<10" if L.max() / L.min() < 10 else ("<1000" if L.max() / L.min() < 1000 else ">=1000")))
-    ok, pl = ctx.call("construct_polyline", build.polyline, V, E, "list", "list", monitor="share")
+    V = np.asarray(V, float)
+    if random.Random(desc["seed"] ^ 0x1234).random() < 0.5:
+        # history: edge lengths measured (persistently) on another shape of the same object, which is then deformed in place to V
+        import mouette as M
+        ctx.cls("share:history:measured_then_deformed")
+        ok, pl = ctx.call("construct_polyline", build.polyline, V * np.array([5.0, 0.2, 1.0]) + 0.5, E, "list", "list", monitor="share")
+        ctx.call("attributes.edge_length", M.attributes.edge_length, pl, monitor="share")
+        for i in range(len(V)):
+            pl.vertices[i] = M.Vec(V[i].copy())
+    else:
+        ok, pl = ctx.call("construct_polyline", build.polyline, V, E, "list", "list", monitor="share")
     ok, res = ctx.call("sample_polyline", sampling.sample_polyline, pl, N, monitor="share")
     A = _points(ctx, res, "sample_polyline", False, 3)
     if A is None or A.shape != (N, 3):
@@ -549,7 +559,17 @@ def run_share_surface(desc, ctx):
     if len(F) >= 2:
         ctx.nontrivial(_key(desc))
     ctx.cls("share:size_ratio_%s" % ("<10" if area.max() / area.min() < 10 else ("<1000" if area.max() / area.min() < 1000 else ">=1000")))
-    ok, sm = ctx.call("construct_surface", build.surface, V, F, "list", "list", monitor="share")
+    V = np.asarray(V, float)
+    if random.Random(desc["seed"] ^ 0x4321).random() < 0.5:
+        import mouette as M
+        ctx.cls("share:history:measured_then_deformed")
+        ok, sm = ctx.call("construct_surface", build.surface, V * np.array([5.0, 0.2, 1.0]) + 0.5, F, "list", "list", monitor="share")
+        ctx.call("attributes.face_area", M.attributes.face_area, sm, monitor="share")
+        ctx.call("attributes.face_normals", M.attributes.face_normals, sm, monitor="share")
+        for i in range(len(V)):
+            sm.vertices[i] = M.Vec(V[i].copy())
+    else:
+        ok, sm = ctx.call("construct_surface", build.surface, V, F, "list", "list", monitor="share")
     want_normals = bool(desc.get("normals"))
     ok, res = ctx.call("sample_surface", sampling.sample_surface, sm, N, return_normals=want_normals, monitor="share")
     Nrm = None
